@@ -145,8 +145,8 @@ def gen_execution(rnd, lines, want_tail=True, n_ex=None, faults=True):
         ex = {}
         kind = rnd.choice(["good"] * 5 + ["dup", "unknown", "flags", "crsess", "eodsess", "unexpected", "badver", "badlen",
                                            "fault", "errpdu", "creset", "notify", "intr", "sendfail", "openfail", "stopstart",
-                                           "park", "expire", "ivs", "f1seq", "restart", "notifywait", "firstnotcr", "hangup", "parkcb", "lateintr", "straywait", "badverthenv0"]) if faults else "good"
-        if rnd.random() < 0.6:
+                                           "park", "expire", "ivs", "f1seq", "restart", "notifywait", "firstnotcr", "hangup", "parkcb", "lateintr", "straywait", "badverthenv0", "reloadfail", "reloadfail"]) if faults else "good"
+        if kind != "reloadfail" and rnd.random() < 0.6:
             c.mutate()
         if rnd.random() < 0.3:
             ex["chunk"] = rnd.choice([1, 2, 3, 7, -1])
@@ -176,6 +176,22 @@ def gen_execution(rnd, lines, want_tail=True, n_ex=None, faults=True):
             def corrupt(items, base):
                 p = pos(items)
                 return items[:p] + [{"f": frame_of(rnd.choice(c.pool), rnd.choice([2, 3, 128, 255]), v)}] + items[p:]
+        elif kind == "reloadfail":             # Cache Reset, then a full set (mostly what the client already holds) with one offending PDU
+            def corrupt(items, base):
+                fam = rnd.choice(["4", "6", "k", "k"])
+                present = [r for r in c.data.values() if r["k"] == fam]
+                absent = [r for r in c.pool if r["k"] == fam and rkey(r) not in c.data]
+                how = rnd.choice(["dup", "unknown", "flags"])
+                if how == "dup" and present:
+                    bad = {"f": frame_of(rnd.choice(present), 1, v)}
+                elif how == "unknown" and absent:
+                    bad = {"f": frame_of(rnd.choice(absent), 0, v)}
+                elif present or absent:
+                    bad = {"f": frame_of(rnd.choice(present or absent), rnd.choice([2, 3, 255]), v)}
+                else:
+                    return items
+                p = pos(items)
+                return items[:p] + [bad] + items[p:]
         elif kind == "f1seq":                  # announce X, withdraw X, announce Y, then an offending PDU
             def corrupt(items, base):
                 fresh = [r for r in c.pool if rkey(r) not in base and rkey(r) not in c.data]
@@ -312,6 +328,8 @@ def gen_execution(rnd, lines, want_tail=True, n_ex=None, faults=True):
             ex["parkcb"] = rnd.randrange(1, 4)
         if kind == "stopstart":
             lines.append({"ex": {"stopstart": True}})
+        if kind == "reloadfail":
+            lines.append({"ex": {"alts": [{"q": "any", "items": [{"f": {"t": "cache_reset", "v": v}}]}]}})
         ex["alts"] = alts
         lines.append({"ex": ex})
         lines.append({"open": "ok"})
